@@ -5,11 +5,14 @@ import (
 	"go/ast"
 	"go/token"
 	"go/types"
+	"sort"
 	"strings"
 
 	"bebopverif/internal/core"
 	"bebopverif/internal/load"
 	"bebopverif/internal/wire"
+
+	"golang.org/x/tools/go/packages"
 )
 
 func init() { register("C19", checkC19) }
@@ -27,13 +30,57 @@ func checkC19(c *core.Ctx) {
 		}
 		nMain++
 		short := strings.TrimPrefix(pk.PkgPath, load.Mod+"/main/")
-		info := pk.TypesInfo
 		renames, temps := 0, 0
-		for fn, fd := range p.AllDecls() {
-			if p.Owner(fn) != pk || fd.Body == nil {
-				continue
+		// the program: the functions of the main package and the functions of
+		// the module's internal packages they reach (a shared file-replacing
+		// helper is part of each CLI that calls it)
+		type unit struct {
+			fd    *ast.FuncDecl
+			owner *packages.Package
+		}
+		var units []unit
+		seenFn := map[*types.Func]bool{}
+		var reach func(fn *types.Func, depth int)
+		reach = func(fn *types.Func, depth int) {
+			if seenFn[fn] || depth > 4 {
+				return
 			}
+			owner := p.Owner(fn)
+			fd := p.Decl(fn)
+			if owner == nil || fd == nil || fd.Body == nil {
+				return
+			}
+			if owner != pk && !strings.HasPrefix(owner.PkgPath, load.Mod+"/internal/") {
+				return
+			}
+			seenFn[fn] = true
+			units = append(units, unit{fd, owner})
+			ast.Inspect(fd.Body, func(n ast.Node) bool {
+				if call, ok := n.(*ast.CallExpr); ok {
+					if cal := load.Callee(owner.TypesInfo, call); cal != nil {
+						reach(cal, depth+1)
+					}
+				}
+				return true
+			})
+		}
+		var roots []*types.Func
+		for fn, fd := range p.AllDecls() {
+			if p.Owner(fn) == pk && fd.Body != nil {
+				roots = append(roots, fn)
+			}
+		}
+		sort.Slice(roots, func(i, j int) bool { return roots[i].Pos() < roots[j].Pos() })
+		for _, fn := range roots {
+			reach(fn, 0)
+		}
+		for _, u := range units {
+			fd := u.fd
+			info := u.owner.TypesInfo
 			name := short + "." + fd.Name.Name
+			if u.owner != pk {
+				name = short + "→" + u.owner.Name + "." + fd.Name.Name
+			}
 			// ---- R1 destructive opens
 			ast.Inspect(fd.Body, func(n ast.Node) bool {
 				call, ok := n.(*ast.CallExpr)
@@ -118,7 +165,7 @@ func checkC19(c *core.Ctx) {
 				c.Check("R3", name+" exits 1 exactly when run() failed", p.Pos(fd.Pos()), mainExitsOnRunError(info, fd) && exitOnlyOnError(info, fd),
 					"main must call os.Exit with a non-zero status on the arm where the error of run() is not nil, and nowhere else")
 			}
-			if funcReturnsError(pk, fd) {
+			if funcReturnsError(u.owner, fd) {
 				errorArmsReturn(c, p, info, fd, name)
 			}
 		}
